@@ -48,6 +48,9 @@ def check_z3_backend(repo: Repo, rep: Report) -> None:
         ns = z3_namespace()
         if "__compare__" in extra:
             ns = _lenient(ns)
+        # in this world z3 terms are opaque tags / objects and Python constants are themselves
+        for nm in ("z3.is_expr", "z3.is_bool", "z3.is_ast"):
+            ns.setdefault(nm, lambda x: isinstance(x, (Tag, Obj)))
         ns.update(extra)
         cw = ClassWorld([mod], extra_funcs=ns, pre_env={"Op": Tag("Op"), "z3": Tag("z3"), "importlib": Tag("importlib")})
         state["cw"] = cw
@@ -154,6 +157,27 @@ def check_z3_backend(repo: Repo, rep: Report) -> None:
         else:
             rep.finding("Z3M-3", Z3_FILE, "Z3Backend.solve", "constraint assertion",
                         "the converted constraints are not passed to the z3 solver", solve.lineno)
+        # constraints that converted to Python constants (a constant operator node, a literal): a False among them makes the program
+        # unsatisfiable whatever z3 says about the rest - it is asserted like any other, or answered False at once
+        is_term = lambda x: isinstance(x, (Tag, Obj))  # noqa: E731
+        for consts in ([c0, False], [False], [True, c0, False, True]):
+            ev, genv = world({"__compare__": lambda op, a, b: _cmp(op, a, b)})
+            ms = _MockSolver(Tag("z3.sat"), {Tag("iterm"): Obj(["IntNumRef"], as_long=lambda: 1), Tag("bterm"): True})
+            ev.funcs["z3.Solver"] = lambda ms=ms: ms.obj
+            ev.funcs["z3.is_true"] = lambda x: x is True
+            ev.funcs["z3.is_false"] = lambda x: x is False
+            for nm in ("z3.is_expr", "z3.is_bool", "z3.is_ast"):
+                ev.funcs[nm] = is_term
+            iv, bv = mkvar("IntVar", 0, 0, 2), mkvar("BoolVar", 1)
+            selfo = mkself(variables=[iv, bv], variables_dict={0: Tag("iterm"), 1: Tag("bterm")}, converted_constraints=list(consts), name="self")
+            r = fde.FunctionValue(solve, ev, genv, self_obj=selfo)()
+            if any(a is False for a in ms.added) or r is False:
+                rep.ok("Z3M-3", f"converted constraints {consts!r}: the constant False reaches the solver (or the answer is False at once)", nontrivial=False)
+            else:
+                rep.finding("Z3M-3", Z3_FILE, "Z3Backend.solve", "constant-false constraint",
+                            f"with converted constraints {consts!r} solve() asserts only {ms.added!r} and returns {r!r} under z3's verdict sat: "
+                            "a constraint that folded to the Python constant False is dropped and the unsatisfiable program is reported satisfiable", solve.lineno)
+                break
     except (Undecided, Raised) as ex:
         rep.undecide("Z3M-3", str(ex))
     try:
